@@ -58,13 +58,18 @@ def _cases(draw):
         # both lexicons use the same entry/sense/synset ids (as two versions of a lexicon do)
         from dataclasses import replace
         prof = replace(prof, id_prefix_with_lexicon=False, id_suffix=False)
+    both = draw(st.integers(0, 2)) > 0
+    if both:
+        # an extension may add further forms to a base entry; asked only with base and extension
+        # both selected (whether such a form counts for the base alone is left open, DESIGN 8)
+        from dataclasses import replace
+        prof = replace(prof, ext_new_forms=True)
     res = draw(gen.resources(prof, max_lexicons=2))
     specs = [gen.spec_of(d) for d in res['lexicons']]
-    sel = draw(st.sampled_from([specs[0], ' '.join(specs), ' '.join(specs)]))
+    sel = ' '.join(specs) if both else specs[0]
     stored = sorted({f['writtenForm'] for lx in res['lexicons'] for e in lx.get('entries', [])
-                     if not e.get('external')
-                     for f in [e['lemma']] + [x for x in e.get('forms', [])
-                                              if not x.get('external')]})
+                     for f in ([e['lemma']] if not e.get('external') else [])
+                     + [x for x in e.get('forms', []) if not x.get('external')]})
     qpool = sorted({v for f in (stored or ['x']) for v in _variants(f)} | {'zzz', 'resum'})
     configs = []
     for _ in range(2):
@@ -217,6 +222,9 @@ def _classify(case):
     specs = [s for s in case['selection'].split() if ref.get(s) is not None]
     view = ref.view(specs, expand_specs=[])
     tags = set()
+    if any(e.get('external') and any(not f.get('external') for f in e.get('forms', []))
+           for lx in case['resource']['lexicons'] for e in lx.get('entries', [])):
+        tags.add('extension-adds-form-to-base-entry')
     for cfg in case['configs']:
         tags.add('lem:' + cfg['lemmatizer'])
         tags.add(f'norm:{cfg["normalizer"]}')
@@ -275,6 +283,6 @@ SUBS = [
         budget={'quick': 250, 'thorough': 4000}, sample=_sample,
         fingerprint=lambda c: fingerprint(c),
         require_tags=('exact-hit', 'normalized-column-hit', 'back-off-hit',
-                      'miss-with-near-match', 'lemmatizer-empty-group', 'lem:table', 'lem:morphy', 'lem:morphy-init',
+                      'miss-with-near-match', 'lemmatizer-empty-group', 'extension-adds-form-to-base-entry', 'lem:table', 'lem:morphy', 'lem:morphy-init',
                       'groups-mixed-hit-and-backoff-only', 'selected-lexicons-share-ids')),
 ]
